@@ -141,7 +141,8 @@ def t_plan(tT, cfg):
     nseg = cfg.size // max(cfg.eff_seg, 1)
     c_on = tT.weighted([3, 1, 1], "T cancel")
     c_after = 1 + tT.choose(10 + 2 * min(nseg, 20), "T cancel after")
-    return {"K": K, "fset": fset, "rate": rate, "cancel_side": c_on - 1 if c_on else None, "cancel_after": c_after}
+    fs_shared = tT.choose(4, "T names the user's filestore request list") == 3
+    return {"K": K, "fset": fset, "rate": rate, "cancel_side": c_on - 1 if c_on else None, "cancel_after": c_after, "fs_shared": fs_shared}
 
 
 def start_T(w, tT, plan, tm: TraceMon):
@@ -153,7 +154,11 @@ def start_T(w, tT, plan, tm: TraceMon):
     tm.start(w)
     if plan["cancel_side"] is not None:
         w.monitors.append(TCancel(tm, plan["cancel_after"], plan["cancel_side"]))
-    rec = w.call(a, "src", "put", arg=w.put_request_obj(None))
+    reqT = w.put_request_obj(None)
+    if plan.get("fs_shared") and not w.cfg.metadata_only:
+        # T's request names the user's one list of filestore requests (the same list object every request of this user names)
+        reqT.fs_requests = w.user_fs_list
+    rec = w.call(a, "src", "put", arg=reqT)
     w.polls_stopped = True
     # one poll loop per handler: drop whatever poll events are pending (siblings with a head start) and re-arm all
     import heapq
@@ -180,6 +185,9 @@ def build(tT, sibling_tape=None):
     w.max_t = 2_000_000
     tm = TraceMon()
     w.monitors.append(tm)
+    from spacepackets.cfdp.tlv import FilestoreActionCode, FileStoreRequestTlv
+
+    w.user_fs_list = [FileStoreRequestTlv(FilestoreActionCode.CREATE_FILE_SNM, "dst/req.bin")]
     return w, cfg, plan, tm
 
 
@@ -278,6 +286,8 @@ def run_history(w, t, hist_log):
                 [FaultHandlerCode.NOTICE_OF_CANCELLATION, FaultHandlerCode.ABANDON_TRANSACTION, FaultHandlerCode.IGNORE_ERROR,
                  FaultHandlerCode.ABANDON_TRANSACTION][osel - 1])]
         req = PutRequest(b.eid, Path(src_name), Path(f"dst/h{i}.bin"), mode, closure, msgs_to_user=hm, fault_handler_overrides=ovr)
+        if t.choose(2, "history names the user's filestore request list") == 1 and hasattr(w, "user_fs_list"):
+            req.fs_requests = w.user_fs_list
         rec = w.call(a, "src", "put", arg=req)
         if rec.ret is not True:
             hist_log.append("put-refused")
